@@ -91,6 +91,11 @@ func (r *Shard) RuntimeInfo() (*RuntimeInfo, error) {
 		return res, fmt.Errorf("get runtime info from %s failed : %s", r.ID, err.Error())
 	}
 
+	// an answer with "data": null leaves nothing behind the pointer
+	if res == nil {
+		return &RuntimeInfo{}, fmt.Errorf("get runtime info from %s failed : empty answer", r.ID)
+	}
+
 	return res, nil
 }
 
